@@ -25,12 +25,12 @@ mod verif_kani {
     static mut NEXT_ID: u8 = 1;
     fn any_id() -> CmdId { let mut b = [0u8; 32]; unsafe { b[0] = NEXT_ID; NEXT_ID += 1; } CmdId::from_bytes(b) }
 
-    struct MCmd { id: CmdId, parent: Prior<Address> }
+    struct MCmd { id: CmdId, parent: Prior<Address>, has_policy: bool }
     impl Command for MCmd {
         fn priority(&self) -> Priority { Priority::Basic(0) }
         fn id(&self) -> CmdId { self.id }
         fn parent(&self) -> Prior<Address> { self.parent }
-        fn policy(&self) -> Option<&[u8]> { None }
+        fn policy(&self) -> Option<&[u8]> { if self.has_policy { Some(&[1]) } else { None } }
         fn bytes(&self) -> &[u8] { &[] }
     }
 
@@ -117,7 +117,7 @@ mod verif_kani {
         type Segment = MSeg;
         type Storage = MStorage;
         fn new_perspective(&mut self, _: PolicyId) -> MPersp { MPersp { revert_fails: false, add_fails: false } }
-        fn new_storage(&mut self, _: MPersp) -> Result<(GraphId, &mut MStorage), StorageError> { Err(any_serr()) }
+        fn new_storage(&mut self, _: MPersp) -> Result<(GraphId, &mut MStorage), StorageError> { log(Ev::Write); if kani::any() { Err(any_serr()) } else { Ok((GraphId::default(), &mut self.storage)) } }
         fn get_storage(&mut self, _: GraphId) -> Result<&mut MStorage, StorageError> { Ok(&mut self.storage) }
         fn remove_storage(&mut self, _: GraphId) -> Result<(), StorageError> { Ok(()) }
         fn list_graph_ids(&mut self) -> Result<impl Iterator<Item = Result<GraphId, StorageError>>, StorageError> {
@@ -268,12 +268,47 @@ mod verif_kani {
         core::mem::forget(client);
     }
 
+    /// C10: init accepts only a parentless command with the graph's id and a policy.
+    #[kani::proof]
+    #[kani::unwind(34)]
+    fn init_trace() {
+        let gid_bytes = { let mut b = [0u8; 32]; b[0] = 7; b };
+        let graph_id = GraphId::from_bytes(gid_bytes);
+        let same_id: bool = kani::any();
+        let cmd_id = if same_id { CmdId::from_bytes(gid_bytes) } else { any_id() };
+        let parentless: bool = kani::any();
+        let parent = if parentless { Prior::None } else { Prior::Single(Address { id: any_id(), max_cut: MaxCut::new(0) }) };
+        let has_policy: bool = kani::any();
+        let cmd = MCmd { id: cmd_id, parent, has_policy };
+        let mut trx: Transaction<MSP, MPS> = Transaction::new(graph_id);
+        let mut sp = MSP { storage: MStorage { heads: HeadSet::default() } };
+        let rule_ok: bool = kani::any();
+        let mut ps = MPS { policy: MPolicy { rule_result_ok: rule_ok, action_ok: false }, get_fails: false };
+        let mut sink = MSink;
+        let r = trx.init(&cmd, &mut ps, &mut sp, &mut sink);
+        let ok = r.is_ok();
+        core::mem::forget(r);
+        if !(same_id && parentless && has_policy) {
+            assert!(!ok);
+            assert!(n() == 0); // nothing was touched
+        } else if !rule_ok {
+            assert!(!ok);
+            assert!(at(0) == Some(Ev::Begin) && at(1) == Some(Ev::CallRule) && at(2) == Some(Ev::Rollback) && n() == 3);
+        } else if ok {
+            assert!(at(0) == Some(Ev::Begin) && at(1) == Some(Ev::CallRule) && at(2) == Some(Ev::AddCommand) && at(3) == Some(Ev::Write) && at(4) == Some(Ev::Commit));
+            kani::cover!(true, "init ok");
+        } else {
+            // storage creation failed: sink must not have committed
+            let mut i = 0; while i < 8 { assert!(at(i) != Some(Ev::Commit)); i += 1; }
+        }
+    }
+
     /// C06: add_single trace contract, perspective already positioned at parent.
     #[kani::proof]
     #[kani::unwind(34)]
     fn add_single_trace() {
         let parent = Address { id: any_id(), max_cut: MaxCut::new(kani::any()) };
-        let cmd = MCmd { id: any_id(), parent: Prior::Single(parent) };
+        let cmd = MCmd { id: any_id(), parent: Prior::Single(parent), has_policy: false };
         let mut trx: Transaction<MSP, MPS> = Transaction::new(GraphId::default());
         trx.perspective = Some(MPersp { revert_fails: kani::any(), add_fails: kani::any() });
         trx.phead = Some(parent.id);
